@@ -163,7 +163,8 @@ def fix_crc(data: bytes) -> bytes:
 
 
 def fixtures():
-    sys.path.insert(0, "/repo") if "/repo" not in sys.path else None
+    _REPO = __import__("os").environ.get("KIO_REPO", "/repo")
+    sys.path.insert(0, _REPO) if _REPO not in sys.path else None
     from tests.records import fixtures as fx
 
     out = []
